@@ -111,11 +111,40 @@ def valid_density(rho, atol=1e-6):
     return abs(np.trace(rho) - 1) < atol and np.allclose(rho, rho.conj().T, atol=atol) and np.linalg.eigvalsh((rho + rho.conj().T) / 2).min() > -atol
 
 
+def keyed_case(cirq, rng):
+    """A channel that records its Kraus index under a key, acting on a qubit that is entangled with others."""
+    n = rng.randint(2, 3)
+    qs = cirq.LineQubit.range(n)
+    c = cirq.Circuit(cirq.H(qs[0]), cirq.CNOT(qs[0], qs[1]))
+    if n == 3 and rng.random() < 0.5:
+        c.append(cirq.CNOT(qs[1], qs[2]))
+    for _ in range(rng.randint(0, 2)):
+        g = gates.draw(rng, rng.choice(['XPow', 'YPow', 'HPow', 'PhasedX']))
+        c.append(g.cirq_gate(cirq).on(qs[rng.randrange(n)]))
+    if rng.random() < 0.5:
+        g = rng.choice([0.2, 0.36, 0.5])
+        ch = rng.choice([cirq.KrausChannel([np.array([[1, 0], [0, math.sqrt(1 - g)]]), np.diag([0, math.sqrt(g)])], key='k'),
+                         cirq.MixedUnitaryChannel([(1 - g, np.eye(2)), (g, np.diag([1, -1]).astype(complex))], key='k'),
+                         cirq.KrausChannel([np.array([[1, 0], [0, math.sqrt(1 - g)]]), np.array([[0, math.sqrt(g)], [0, 0]])], key='k')])
+        c.append(ch.on(qs[rng.randrange(n)]))
+    else:
+        a, b = rng.sample(range(n), 2)
+        c.append(mcircuits.random_channel2(cirq, rng, keyed=True).on(qs[a], qs[b]))
+    for _ in range(rng.randint(0, 2)):
+        g = gates.draw(rng, rng.choice(['XPow', 'HPow', 'CXPow', 'CZPow']))
+        if len(g.shape) <= n:
+            c.append(g.cirq_gate(cirq).on(*[qs[w] for w in rng.sample(range(n), len(g.shape))]))
+    return c, qs
+
+
 def circuit_stream(ctx, cirq, checks, n):
     rng = ctx.rng
-    for i in range(n):
-        c, qs = mcircuits.random_mcircuit(cirq, rng, channels=True, qudits=False, mid=rng.random() < 0.6, cc=rng.random() < 0.5, max_ops=7, max_digits=2,
-                                          confusion=False)
+    for i in range(n + n // 3):
+        if i >= n:
+            c, qs = keyed_case(cirq, rng)
+        else:
+            c, qs = mcircuits.random_mcircuit(cirq, rng, channels=True, qudits=False, mid=rng.random() < 0.6, cc=rng.random() < 0.5, max_ops=7,
+                                              max_digits=2, confusion=False)
         try:
             mops, meas, _ = opsem.circuit_to_mops(cirq, c, qs)
         except opsem.Unsupported:
@@ -127,7 +156,7 @@ def circuit_stream(ctx, cirq, checks, n):
         desc = str(c).replace('\n', ' | ')[:400]
         has_channel = any(not cirq.has_unitary(op) and not cirq.is_measurement(op) for op in c.all_operations())
         for entry in ('DensityMatrixSimulator.simulate', 'Simulator.simulate[trajectories]'):
-            split = rng.random() < 0.5
+            split = rng.random() < 0.7
             try:
                 if entry.startswith('Density'):
                     br = enumerate_runs(lambda s: np.array(cirq.DensityMatrixSimulator(seed=s, split_untangled_states=split, dtype=np.complex128)
